@@ -1226,9 +1226,22 @@ func c19JudgeResolverDial(j *c19Judge, x c19ResolverAux, a *c19Ans) {
 		j.out.Incon = fmt.Sprintf("probe reported %d dials, asked for %d", len(a.Dials), x.n)
 		return
 	}
+	// what a connected socket reports as its peer: dialling the unspecified address (0.0.0.0, ::)
+	// means "this host" and the kernel reports the loopback address of that family
+	peerOf := func(w string) string {
+		if h, p, err := net.SplitHostPort(w); err == nil {
+			if ip := net.ParseIP(h); ip != nil && ip.IsUnspecified() {
+				if ip.To4() != nil {
+					return net.JoinHostPort("127.0.0.1", p)
+				}
+				return net.JoinHostPort("::1", p)
+			}
+		}
+		return w
+	}
 	mult := map[string]int{}
 	for _, w := range x.norm {
-		mult[w]++
+		mult[peerOf(w)]++
 	}
 	seen := map[string]int{}
 	for i, d := range a.Dials {
